@@ -37,6 +37,8 @@ inductive SOp (α : Type) where
   /- single-pass (input iterator) ranges; `sid` names the stream in the trace.  `appendInput true`: the public append ();
      `appendInput false`: insert (end (), first, last) and the range constructor's loop -/
   | appendInput (strong : Bool) (sid : Nat) (vs : List α) | assignInput (sid : Nat) (vs : List α)
+  /- element access: at (i) (out_of_range beyond size (), by the GENERATED test) and operator[] (i) -/
+  | atIdx (i : Nat) | index (i : Nat)
   deriving DecidableEq
 
 /-- API preconditions, in terms of the current size -/
@@ -50,6 +52,7 @@ def SOp.valid (size : Nat) : SOp α → Prop
   | .insertN p _ _ => p ≤ size
   | .insertNSelf p _ i => p ≤ size ∧ i < size
   | .insertRange p vs => p ≤ size ∧ vs ≠ []
+  | .index i => i < size
   | _ => True
 
 /-- the model program of the call on container `c` (the aliasing source is resolved against the current buffer) -/
@@ -77,6 +80,8 @@ def SOp.run (cfg : Cfg) (c : Nat) (w : World α) : SOp α → M α Unit
   | .insertRange p vs => insertRangeFwd cfg c p (vs.map Src.ext) >>= fun _ => pure ()
   | .appendInput st sid vs => appendRangeInput cfg c st sid 0 vs >>= fun _ => pure ()
   | .assignInput sid vs => assignWithRangeInput cfg c sid vs
+  | .atIdx i => getV c >>= fun v => if guard_at0_0 { size := v.size, pos := i } then throwE .range else readSlot v.data i >>= fun _ => pure ()
+  | .index i => getV c >>= fun v => readSlot v.data i >>= fun _ => pure ()
 
 /-- what std::vector does (Spec/L0.lean) -/
 def SOp.spec : SOp α → List (Val α) → List (Val α)
@@ -103,6 +108,8 @@ def SOp.spec : SOp α → List (Val α) → List (Val α)
   | .insertRange p vs, xs => (L0.insertRange xs p (vs.map Val.val)).1
   | .appendInput _ _ vs, xs => L0.append xs (vs.map Val.val)
   | .assignInput _ vs, _ => L0.assignRange (vs.map Val.val)
+  | .atIdx _, xs => xs
+  | .index _, xs => xs
 
 /-- operations with the strong exception guarantee (erase and erase(range) only have the basic one) -/
 def SOp.strong : SOp α → Bool
@@ -434,6 +441,27 @@ theorem step_basic (cfg : Cfg) (c : Nat) (op : SOp α) (w : World α) (xs : List
     cases hr : assignWithRangeInput cfg c sid vs w with
     | ok u w1 => rw [hr] at h; exact ⟨h.1, h.2.1 xs hx⟩
     | thrown e1 w1 => rw [hr] at h; exact ⟨h.1, fun hs => by simp [SOp.strong] at hs⟩
+  | atIdx i =>
+    show match (getV c >>= fun v => if guard_at0_0 { size := v.size, pos := i } then throwE .range else readSlot v.data i >>= fun _ => (pure () : M α Unit)) w with
+         | .ok _ w' => _ | .thrown _ w' => _
+    rw [bind_run, getV_run]; simp only []
+    have eg : guard_at0_0 { size := (w.hdr c).size, pos := i } = decide ((w.hdr c).size ≤ i) := rfl
+    rw [eg]
+    by_cases h : (w.hdr c).size ≤ i
+    · rw [if_pos (decide_eq_true h)]; exact ⟨Basic.refl hp.vec hp.led, fun _ => hx⟩
+    · rw [if_neg (by simpa using h)]
+      have hi : i < xs.length := by omega
+      have hslot := hx.2 i hi
+      have hread : readSlot (w.hdr c).data i w = .ok xs[i] w := by unfold readSlot; rw [hslot]
+      rw [bind_run, hread]; exact ⟨Basic.refl hp.vec hp.led, hx⟩
+  | index i =>
+    show match (getV c >>= fun v => readSlot v.data i >>= fun _ => (pure () : M α Unit)) w with
+         | .ok _ w' => _ | .thrown _ w' => _
+    rw [bind_run, getV_run]; simp only []
+    have hi : i < xs.length := by rw [hlen]; exact hv
+    have hslot := hx.2 i hi
+    have hread : readSlot (w.hdr c).data i w = .ok xs[i] w := by unfold readSlot; rw [hslot]
+    rw [bind_run, hread]; exact ⟨Basic.refl hp.vec hp.led, hx⟩
 
 /-! ### histories -/
 
